@@ -34,3 +34,30 @@ def bath_eigensystem(inp):
             if nonunit > 1e-9 or imag > 1e-9 or rec > 1e-9:
                 bad.append({'spectrum': spectrum, 'trial': trial, '|U^H U - 1|': nonunit, '|Im eigenvalues|': imag, '|U D U^H - O|': rec})
     return {'violates': bool(bad), 'cases': cases, 'detail': bad[:4], 'n_bad': len(bad)}
+
+
+def basis_covariance(inp):
+    """simulating (V H V^+, V O V^+, V rho0 V^+) must give V rho(t) V^+, for unique in {False, True}"""
+    import oqupy
+    rng = np.random.default_rng(21)
+    corr = oqupy.PowerLawSD(alpha=0.15, zeta=1, cutoff=3.0, cutoff_type='exponential', temperature=0.2)
+    par = oqupy.TempoParameters(dt=0.15, dkmax=3, epsrel=1e-8)
+    bad = []
+    for spectrum in ([0.5, -0.5], [1.0, 1.0, 0.0]):
+        d = len(spectrum)
+        O = np.diag(spectrum)
+        h = rng.normal(size=(d, d)) + 1j * rng.normal(size=(d, d))
+        H = (h + h.conj().T) / 4
+        a = rng.normal(size=(d, d)) + 1j * rng.normal(size=(d, d))
+        rho0 = a @ a.conj().T
+        rho0 /= np.trace(rho0)
+        V = _haar(d, rng)
+        for unique in (False, True):
+            ref = oqupy.Tempo(oqupy.System(H), oqupy.Bath(O, corr), par, rho0, 0.0, unique=unique).compute(0.6, progress_type='silent').states
+            OV = V @ O @ V.conj().T
+            rot = oqupy.Tempo(oqupy.System(V @ H @ V.conj().T), oqupy.Bath((OV + OV.conj().T) / 2, corr), par, V @ rho0 @ V.conj().T, 0.0,
+                              unique=unique).compute(0.6, progress_type='silent').states
+            err = max(float(np.abs(r - V @ s @ V.conj().T).max()) for r, s in zip(rot, ref))
+            if err > 1e-6:
+                bad.append({'spectrum': spectrum, 'unique': unique, 'max_deviation_from_covariance': err})
+    return {'violates': bool(bad), 'detail': bad}
